@@ -390,3 +390,89 @@ func poolSubjects(p *x509.CertPool) string {
 }
 
 func featuregateFeature(g string) featuregate.Feature { return featuregate.Feature(g) }
+
+const nAspects = 7
+
+// aspectKey is the canonical text of one hot-reloadable aspect of the spec.
+func (c *cspec) aspectKey(k int) string {
+	switch k {
+	case 0:
+		return fmt.Sprint(c.servers)
+	case 1:
+		return fmt.Sprint(c.policies)
+	case 2:
+		return fmt.Sprint(c.schemas)
+	case 3:
+		var kv []string
+		for g, v := range c.gates {
+			kv = append(kv, fmt.Sprintf("%s=%v", g, v))
+		}
+		sort.Strings(kv)
+		return fmt.Sprintf("%d %v", c.annot, kv)
+	case 4:
+		return string(c.logging)
+	case 5:
+		return fmt.Sprintf("%d/%d", c.cert, c.ca)
+	default:
+		return fmt.Sprint(c.serverNames)
+	}
+}
+
+// restoreAspect copies aspect k from an earlier version of the same cluster
+// (an A -> B -> A history for that aspect).
+func (c *cspec) restoreAspect(from *cspec, k int) string {
+	f := from.clone()
+	switch k {
+	case 0:
+		c.servers = f.servers
+	case 1:
+		c.policies = f.policies
+	case 2:
+		c.schemas = f.schemas
+	case 3:
+		c.annot, c.gates = f.annot, f.gates
+	case 4:
+		c.logging = f.logging
+	case 5:
+		c.cert, c.ca = f.cert, f.ca
+	default:
+		c.serverNames = f.serverNames
+	}
+	return fmt.Sprintf("aspect %d back to its earlier value %s", k, c.aspectKey(k))
+}
+
+// aspectHistory remembers, per aspect, the version just before its last
+// accepted change.
+type aspectHistory struct {
+	prev [nAspects]*cspec
+	last int // aspect changed most recently (-1: none)
+}
+
+func newAspectHistory() *aspectHistory { return &aspectHistory{last: -1} }
+
+func (h *aspectHistory) accepted(old, cur *cspec) {
+	for k := 0; k < nAspects; k++ {
+		if old.aspectKey(k) != cur.aspectKey(k) {
+			h.prev[k] = old.clone()
+			h.last = k
+		}
+	}
+}
+
+// pick draws an aspect to take back (the most recently changed one half of the
+// time); -1 if nothing changed yet.
+func (h *aspectHistory) pick(draw func(int) int) int {
+	var have []int
+	for k := 0; k < nAspects; k++ {
+		if h.prev[k] != nil {
+			have = append(have, k)
+		}
+	}
+	if len(have) == 0 {
+		return -1
+	}
+	if h.last >= 0 && draw(2) == 0 {
+		return h.last
+	}
+	return have[draw(len(have))]
+}
